@@ -106,8 +106,12 @@ func (p *C08) Gen(seed uint64, i int, tier string) *scen.Scenario {
 		}
 		if r.Chance(2, 3) {
 			o := scen.Op{Kind: "attrs"}
-			for n := r.Range(1, 3); n > 0; n-- {
-				o.Args = append(o.Args, g.attr(r.Bool()))
+			na := r.Range(1, 3)
+			if r.Chance(1, 15) {
+				na = scen.Pick(r, []int{120, 135, 300}) // more own attributes than the pooled per-call slice holds at first
+			}
+			for n := na; n > 0; n-- {
+				o.Args = append(o.Args, g.attr(n <= 3 && r.Bool()))
 			}
 			if r.Chance(1, 2) {
 				o.Args = append(o.Args, scen.Pick(r, sharedRefs)) // a logger-level shared group
@@ -176,7 +180,11 @@ func (p *C08) Gen(seed uint64, i int, tier string) *scen.Scenario {
 			}
 			if r.Chance(1, 25) {
 				// a wide record (the property allows any number of attributes; 57+ pairs outgrow the pooled slice's initial size hint)
-				for n := r.Range(57, 90); n > 0; n-- {
+				wide := r.Range(57, 90)
+				if r.Chance(1, 6) {
+					wide = scen.Pick(r, []int{520, 1100})
+				}
+				for n := wide; n > 0; n-- {
 					op.Args = append(op.Args, scen.Arg{K: "key", S: g.key()}, scen.Arg{K: "i", I: g.nv()})
 				}
 			}
